@@ -3,8 +3,8 @@
    defers of dispatch written out in registration order) *)
 From Model Require Import Str Sexp Http Template Table Curly DetectRoute Jsr311 Router Dispatch.
 From Spec Require Import DispatchSpec.
-From Proofs Require Import DispatchProofs ServeProofs.
-From Coq Require Import Lia.
+From Proofs Require Import DispatchProofs ServeProofs PurityProofs.
+From Coq Require Import Lia List.
 
 (* recovery on (and a recover handler that does not panic itself): no panic escapes
    Dispatch / ServeHTTP, wherever it is raised — any filter before or after passing control
@@ -63,3 +63,17 @@ Example C10_example :
   st_recovered s = 1 /\ st_acq s = 1 /\ st_rel s = 1 /\
   st_comp s = Some (Gzip, [L "partial"; L "<r>"], true) /\ st_status s = Some 200%Z.
 Proof. vm_compute. repeat split; reflexivity. Qed.
+
+(* "afterwards the container serves every following request exactly as it would have otherwise": in any history,
+   with any number of panicking requests in it (recovered, or propagated to a caller that goes on using the
+   container), raised anywhere, before or after output — every request is answered exactly as alone on a fresh
+   container.  (serve_all carries the log and the acquire / release / recover counters on from request to request;
+   this is the instance of C19_history that C10 states.) *)
+Definition C10_following_requests_statement : Prop :=
+  forall O cfg hs w i en req h,
+    nth_error hs i = Some (en, req, h) ->
+    exists wi r, nth_error (fst (serve_all O cfg hs w)) i = Some (wi, r) /\
+                 answer_in wi r = answer (serve O cfg en req (st0 h)).
+Theorem C10_following_requests : C10_following_requests_statement.
+Proof. exact history_independent. Qed.
+Print Assumptions C10_following_requests.
